@@ -5,6 +5,7 @@ import (
 	"encoding/json"
 	"errors"
 	"fmt"
+	"maps"
 	"math/rand"
 	"os"
 	"runtime"
@@ -326,6 +327,16 @@ func (rn *runner) runOnce(st *site) (res siteResult, lr *learned, fatal error) {
 	// exec runs one operation.  It reports (completed, err).
 	exec := func(o hop, faulted bool) (bool, error) {
 		before := c.Evals
+		if faulted {
+			switch o.Kind {
+			case "fetch", "subfetch", "stat", "enumerate":
+				// What a read says WHILE its fault is active is judged as usual, but it must not settle
+				// a reference-map entry that an earlier call left uncertain: the answer may be the
+				// fault's, not the store's.
+				unc, pres := maps.Clone(c.Uncertain), maps.Clone(c.Present)
+				defer func() { c.Uncertain, c.Present = unc, pres }()
+			}
+		}
 		switch o.Kind {
 		case "receive":
 			c.Tolerate = faulted
